@@ -112,6 +112,7 @@ func (s *spyManager) AddPartition(ctx context.Context, db *model.DatabaseInfo, c
 }
 
 func propC13(t *rapid.T) {
+	quiesce.SetBaseline() // goroutines left behind by earlier cases of this process are not part of this case
 	sc := stats.New("C13")
 	cli, err := etcdsrv.Client()
 	if err != nil {
